@@ -71,7 +71,8 @@ BOUNDS = {
 # ============================================================================= alphabets
 ITEM24 = "1." + "0" * 22       # exactly 24 characters: legal
 ITEM25 = "1." + "0" * 23       # 25 characters: too long
-ITEMS = ["1", "2.5", "-3", ".", "", "1d1", "2-1", "+", "-", "1E2", "abc", "NA", ITEM25, ITEM24, "1_0", "2-1-3"]
+ITEMS = ["1", "2.5", "-3", ".", "", "1d1", "2-1", "+", "-", "1E2", "abc", "NA", ITEM25, ITEM24, "1_0", "2-1-3",
+         "-2-1", "+1.5+2", "-1d1"]  # a signed mantissa in front of the short exponent form / the D exponent
 ITEMS_SMALL = ["1", ".", "", "2-1", "abc"]
 NAMES = ["A", "B", "C", "D"]
 
